@@ -56,7 +56,7 @@ MODEL_CLASSES = {c[0] for c in ENV_IMPORT['classes']}
 # (the tree as it is: all handles of a file share one position, F130) or 'perhandle'
 # (fixes/C05-F130.patch applied).
 # 'perhandle-append': with fixes/C05-F374.patch ('a' handles write at the current end of the file).
-HANDLE_MODEL = os.environ.get('C05_HANDLE_MODEL', 'perhandle')   # mirrors /repo since fix b23b24a (F130)
+HANDLE_MODEL = os.environ.get('C05_HANDLE_MODEL', 'perhandle-append')   # mirrors /repo since fixes b23b24a (F130) and 672331e (F374)
 
 TUPLE_MARKER = '__tuple__'
 TYPE_KEY = '_type'
